@@ -47,45 +47,58 @@ static void check_case(vg::Src& s, vh::Ctx& c)
         return;
     }
     SplRun r = run_spl(sc, c);
-    c.expect(r.e.size() == n, "erosion-size", "");
     size_t eroded = 0, lakes = 0, clamped = 0;
-    for (size_t i = 0; i < n; ++i)
+    size_t rounds = s.weighted({ 150, 70, 36 }) + 1;  // 1-3 steps with the same eroder object
+    c.label("rounds=" + std::to_string(rounds));
+    for (size_t round = 0; round < rounds; ++round)
     {
-        double ei = r.e[i];
-        std::string at = "node " + std::to_string(i) + " (z=" + vg::fmt(r.z[i]) + ", erosion=" + vg::fmt(ei) + ")";
-        if (!std::isfinite(ei))
-            c.fail("not-finite", at);
-        if (terminal(r, i))
+        std::string tag = "step#" + std::to_string(round + 1) + ": ";
+        if (round > 0)
         {
-            if (ei != 0)
-                c.fail(sc.fc.masked(i) ? "masked-eroded" : sc.fc.isbase[i] ? "base-level-eroded" : "pit-eroded", at);
-            continue;
+            std::string what = next_round(sc, r, s, c);
+            c.desc += " |" + what;
+            if (c.verbose)
+                std::cout << "STEP" << what << std::endl;
         }
-        double fl = floor_of(r, i);
-        double mag = std::fabs(r.z[i]) + std::fabs(fl);
-        if (r.z[i] <= fl)
-        {
-            ++lakes;
-            if (ei != 0)
-                c.fail("lake-eroded", at + " lies at or below its lowest receiver (" + vg::fmt(fl) + ")");
-            continue;
-        }
-        if (ei < -4e-16 * mag)
-            c.fail("negative-erosion", at);
-        double znew = r.z[i] - ei;
-        if (znew < fl - 4e-16 * mag)
-            c.fail("slope-reversed", at + ": new elevation " + vg::fmt(znew) + " is below the lowest post-erosion receiver elevation " + vg::fmt(fl));
-        if (ei > 0)
-            ++eroded;
-        if (vg::biteq(ei, r.z[i] - (fl + DBL_MIN)))
-            ++clamped;
-    }
-    // a second call on the same eroder is a fresh step (no state carried over)
-    {
-        auto e2 = r.spl->erode(r.z, r.area, sc.dt);
+        c.expect(r.e.size() == n, "erosion-size", "");
         for (size_t i = 0; i < n; ++i)
-            if (!vg::biteq(e2[i], r.e[i]))
-                c.fail("erode-not-repeatable", "node " + std::to_string(i) + ": " + vg::fmt(r.e[i]) + " then " + vg::fmt(e2[i]));
+        {
+            double ei = r.e[i];
+            std::string at = tag + "node " + std::to_string(i) + " (z=" + vg::fmt(r.z[i]) + ", erosion=" + vg::fmt(ei) + ")";
+            if (!std::isfinite(ei))
+                c.fail("not-finite", at);
+            if (terminal(r, i))
+            {
+                if (ei != 0)
+                    c.fail(sc.fc.masked(i) ? "masked-eroded" : sc.fc.isbase[i] ? "base-level-eroded" : "pit-eroded", at);
+                continue;
+            }
+            double fl = floor_of(r, i);
+            double mag = std::fabs(r.z[i]) + std::fabs(fl);
+            if (r.z[i] <= fl)
+            {
+                ++lakes;
+                if (ei != 0)
+                    c.fail("lake-eroded", at + " lies at or below its lowest receiver (" + vg::fmt(fl) + ")");
+                continue;
+            }
+            if (ei < -4e-16 * mag)
+                c.fail("negative-erosion", at);
+            double znew = r.z[i] - ei;
+            if (znew < fl - 4e-16 * mag)
+                c.fail("slope-reversed", at + ": new elevation " + vg::fmt(znew) + " is below the lowest post-erosion receiver elevation " + vg::fmt(fl));
+            if (ei > 0)
+                ++eroded;
+            if (vg::biteq(ei, r.z[i] - (fl + DBL_MIN)))
+                ++clamped;
+        }
+        // a second call on the same eroder is a fresh step (no state carried over)
+        {
+            auto e2 = r.spl->erode(r.z, r.area, sc.dt);
+            for (size_t i = 0; i < n; ++i)
+                if (!vg::biteq(e2[i], r.e[i]))
+                    c.fail("erode-not-repeatable", "node " + std::to_string(i) + ": " + vg::fmt(r.e[i]) + " then " + vg::fmt(e2[i]));
+        }
     }
     c.nontrivial = eroded > 0 && (lakes > 0 || clamped > 0);
     if (eroded)
